@@ -15,7 +15,8 @@
      OriginAnswer a    the response head of that upstream request arrives
      LeaderStore       handleUpstreamResponse: 200 cacheable -> cache.Cache (reads the whole body);
                        304 -> UpdateMetadata + Get; not cacheable -> ErrNotCacheable for everybody;
-                       body aborted / entry lost under a 304 -> error for everybody
+                       body aborted / entry lost under a 304 -> the cache could not store or refresh:
+                       ErrNotCacheable for everybody as well (the repair of C09; FError is no longer produced)
      FlightReturn      Do returns in every caller (the yield point fetch.afterDo is here)
      FollowerReGet c   shared cached result: close the shared handle, cache.Get a private one
      FollowerFallback c a   fetchDirectlyFromUpstream with the caller's own request (entry vanished,
@@ -193,12 +194,14 @@ Definition lts_step (s : state) (a : action) : option state :=
                               origin_count := origin_count s; cond_count := cond_count s;
                               stored := stored s; faults := faults s |}
                   | None =>
-                      Some {| ph := ph s; flight_ := fl FError; cache := cache s;
+                      (* the entry vanished under the revalidation: ErrNotCacheable, everybody fetches directly *)
+                      Some {| ph := ph s; flight_ := fl FNotCacheable; cache := cache s;
                               origin_count := origin_count s; cond_count := cond_count s;
                               stored := stored s; faults := faults s + 1 |}
                   end
               | KAbortBody =>
-                  Some {| ph := ph s; flight_ := fl FError; cache := cache s;
+                  (* the store fails with the body: ErrNotCacheable as well *)
+                  Some {| ph := ph s; flight_ := fl FNotCacheable; cache := cache s;
                           origin_count := origin_count s; cond_count := cond_count s;
                           stored := stored s; faults := faults s + 1 |}
               end
